@@ -59,7 +59,16 @@ pub fn run_write(out: &mut Out, seed: u64, tier: &str) {
     for c in 0..n_cases {
         let n = 1 + rng.below(8);
         let zs: Vec<usize> = (0..n).map(|_| if c % 3 == 0 { 1 + rng.below(118) } else { *rng.pick(&[1usize, 6, 7, 8, 17, 26, 78, 118]) }).collect();
-        let xs: Vec<[f64; 3]> = (0..n).map(|_| [special_values(&mut rng), special_values(&mut rng), special_values(&mut rng)]).collect();
+        let mut xs: Vec<[f64; 3]> = (0..n).map(|_| [special_values(&mut rng), special_values(&mut rng), special_values(&mut rng)]).collect();
+        let mut zs = zs;
+        // one case in eight holds atoms that coincide exactly (everything at the origin, as `from_atomic_symbols` leaves a molecule;
+        // a repeated atom) or differ by less than the printed resolution: every atom is still an atom of the file
+        match c % 8 {
+            3 => { for p in xs.iter_mut() { *p = [0.0, 0.0, 0.0]; } if c % 16 == 3 { for z in zs.iter_mut() { *z = 1; } } }
+            5 => { if n >= 2 { xs[1] = xs[0]; zs[1] = zs[0]; } }
+            7 => { if n >= 2 { xs[1] = [xs[0][0] + 2e-7, xs[0][1], xs[0][2] - 1e-7]; zs[1] = zs[0]; } }
+            _ => {}
+        }
         let m = Mol { name: "w".into(), zs: zs.clone(), xs: xs.clone() };
         let syms = m.symbols();
         let refs: Vec<&str> = syms.iter().map(|s| s.as_str()).collect();
@@ -182,6 +191,11 @@ pub fn run_read(out: &mut Out, seed: u64, tier: &str) {
         let mut text = lines.join(eol);
         if rng.chance(0.8) { text += eol; }
         let mut bytes = text.clone().into_bytes();
+        // the title is free text in whatever encoding the writing program used: one well-formed file in ten carries a Latin-1 byte
+        // there (0xC5 = A-ring, as in "coordinates in Angstrom"), which is not valid UTF-8 — the atoms are still the atoms
+        if c % 10 == 4 && c % 2 == 0 {
+            if let Some(p1) = bytes.iter().position(|b| *b == b'\n') { bytes.insert(p1 + 1, 0xC5); }
+        }
         let is_corrupt = c % 2 == 1;
         if is_corrupt {
             // corrupt: drop / duplicate a field, non-numeric field, unknown symbol, extra or missing header lines, garbage
